@@ -98,9 +98,15 @@ fn main() {
             "project" => "C09",
             _ => "C10",
         };
-        let orders = [Order::Canonical, Order::Shuffled(case_no as u64), Order::ActionsFirst];
-        for order in orders {
-            let r = Render { base, order, fills: Fills::One, lower: false, dividends: false };
+        // the extension law is about the 30-day horizon: try it across a leap-year end as well
+        let bds = base_dates();
+        let runs: Vec<(chrono::NaiveDate, Order)> = if par.law == "extend" {
+            vec![(bds[0], Order::Canonical), (bds[1], Order::Shuffled(case_no as u64)), (bds[7], Order::ActionsFirst)]
+        } else {
+            vec![(base, Order::Canonical), (base, Order::Shuffled(case_no as u64)), (base, Order::ActionsFirst)]
+        };
+        for (base, order) in runs {
+            let r = Render { base, order, fills: Fills::One, lower: false, dividends: false, only: None };
             let ta = render(&pair.a, &r);
             let tb = render(&pair.b, &r);
             let ra = run(&ta, &config);
@@ -168,8 +174,9 @@ fn main() {
                     let (Some(x), Some(f)) = (par.x, par.f) else { continue };
                     let fd = f.to_decimal();
                     let idx_of = |date: NaiveDate| (1..=pair.a.n()).find(|d| date_of(&pair.a, base, *d) == date).unwrap_or(usize::MAX);
-                    for ((_, date), d) in sa.disposals.iter_mut() {
-                        if pre_split(&pair.a.timing, idx_of(*date), x) {
+                    let split_sec = par.sec.clone().unwrap_or_default();
+                    for ((ticker, date), d) in sa.disposals.iter_mut() {
+                        if *ticker == split_sec && pre_split(&pair.a.timing, idx_of(*date), x) {
                             d.q *= fd;
                             for l in d.legs.values_mut() { l.q *= fd; }
                         }
@@ -216,7 +223,7 @@ fn main() {
             let _ = writeln!(w, "{}", serde_json::to_string(f).unwrap_or_default());
         }
     }
-    let r = Render { base, order: Order::Canonical, fills: Fills::One, lower: false, dividends: false };
+    let r = Render { base, order: Order::Canonical, fills: Fills::One, lower: false, dividends: false, only: None };
     let sample: Vec<String> = pairs.iter().step_by((pairs.len() / 2).max(1)).take(2)
         .map(|p| format!("{}: {} => {}", p.par.law, to_dsl(&render(&p.a, &r)).replace('\n', " | "), to_dsl(&render(&p.b, &r)).replace('\n', " | "))).collect();
     println!("{}", json!({"records": pairs.len(), "findings": nf, "counters": cnt.map, "samples": sample}));
